@@ -288,3 +288,5 @@ ASSUMPTIONS = [
     "G13 (accepted => exports on Polars without internal error) is carried by the step obligations of C11/C09/C06/C07/C02 (any exception of compile_ast on an accepted verb is a violation there)",
     "errors raised inside Polars for well-formed plans are not decided",
 ]
+LEVEL = "other"
+EXPLANATION = "Bounded native enumeration of rejection rules x syntactic positions x histories x backends on the real verbs, a traversal-completeness contract per expression class, and a static scan that the validation layer does not read the backend."
